@@ -536,4 +536,67 @@ def run(ctx):
         run.instance(R10, {"fn": "owner::process_invoice_tx", "obligation": "the invoice is answered only if no context is stored for it, or the stored one holds no inputs (the invoicer's, self-sent)"}, held=held)
         if not held:
             run.finding(Finding(R10, pit.id, "a second process_invoice_tx for the same invoice (before tx_lock_outputs) finds the payer's own stored context, takes it for the invoicer's of a self-sent invoice and leaves inputs and outputs out of the offset: the reply's offset is the negated secret excess of the payer", site=pit.loc()))
+    R11 = "C12.R11"
+    run.rule(R11, "a context that has signed is not left in the store: an API step that hands out a partial signature made with a context's (sec_key, sec_nonce) does not also store that context for a later step, unless that step deletes it - a second signature with the same nonce over another message reveals the key", floor=3)
+    TX11 = c.LW + "internal::tx::"
+    FR2 = c.LW + "slate::Slate::fill_round_2"
+    signers = {}
+    for hid in (TX11 + "add_inputs_to_slate", TX11 + "add_output_to_slate", TX11 + "complete_tx"):
+        h = ctx.fn(hid)
+        if h is None:
+            run.error("C12.R11: %s not found" % hid)
+            continue
+        fb = {b for b, _t in cfg.find_calls(h, FR2)}
+        if not fb:
+            continue
+        cond = None
+        for i in range(1, h.argc + 1):
+            if h.locals[i]["ty"] != "bool":
+                continue
+            g = cfg.local_guard(h, i)
+            if g.fail and cfg.must_pass(h, g.fail, fb)[0]:
+                cond = i
+        signers[hid] = cond  # None: signs unconditionally; i: signs iff parameter i is false
+    n11 = 0
+    for fid, f in sorted(db.fns.items()):
+        if not (fid.startswith(c.LW + "api_impl::owner::") or fid.startswith(c.LW + "api_impl::foreign::")) or "{closure" in fid:
+            continue
+        signs = []
+        for b, t in f.calls():
+            callee = t.get("f") or ""
+            if callee == FR2:
+                signs.append((b, "fill_round_2"))
+            elif callee in signers:
+                ci = signers[callee]
+                if ci is None or vf.const_of_operand(f, t["a"][ci - 1]) != "1":
+                    signs.append((b, callee.split("::")[-1]))
+        if not signs:
+            continue
+        n11 += 1
+        saves = cfg.find_calls(f, c.WOB + "save_private_context")
+        deletes = ctx.eff.effect_blocks(f, {"delete_private_context"})
+        later = False
+        if saves and not deletes and fid.endswith("::process_invoice_tx"):
+            # the payer's part ends with the reservation step: tx_lock_outputs deletes the context of an Invoice2
+            # slate, after lock_tx_context Ok and before it returns Ok (except on the branch of a look-up of the
+            # wallet's own TxReceived entry: an invoice the wallet pays to itself is finalized from this context)
+            tlo = ctx.fn(c.LW + "api_impl::owner::tx_lock_outputs")
+            if tlo is not None:
+                dl = ctx.eff.effect_blocks(tlo, {"delete_private_context"})
+                lk = set()
+                for lb, _lt in cfg.find_calls(tlo, c.LW + "internal::selection::lock_tx_context"):
+                    lk |= cfg.call_guard(tlo, lb).ok
+                inv2 = [x for x in cfg.comparisons(tlo) if ("agg", c.LW + "slate::SlateState", "Invoice2") in (vf.producers(tlo, x.l) | vf.producers(tlo, x.r) | vf.origins(tlo, x.l) | vf.origins(tlo, x.r))]
+                guarded = False
+                for x in inv2:
+                    te = x.true_edges if x.op == "Eq" else x.false_edges
+                    if dl and te and all(cfg.must_pass(tlo, te, {d})[0] for d in dl):
+                        guarded = True
+                later = bool(dl) and bool(lk) and all(cfg.must_pass(tlo, lk, {d})[0] for d in dl) and guarded
+        held = not saves or bool(deletes) or later
+        run.instance(R11, {"fn": pp.short(fid), "signs through": sorted({w for _b, w in signs}), "stores the context": bool(saves), "deletes it": bool(deletes), "deleted by the step that ends the signer's part (tx_lock_outputs, Invoice2)": later}, held=held)
+        if not held:
+            run.finding(Finding(R11, fid, "%s hands out a partial signature made with the context's key and nonce and stores that context; nothing in the payer's flow deletes it, and foreign finalize_tx (Standard2 arm) signs with whatever context is stored under the slate id: a crafted Standard2 slate with the id of a paid invoice gets a second signature with the same nonce over another message (key and nonce recoverable)" % fid.split("::")[-1], site=c.site_of(f, saves[0][0])))
+    if n11 < 3:
+        run.error("C12.R11: expected at least three signing API steps (receive_tx, process_invoice_tx, finalize_tx), found %d" % n11)
     run.not_decided += ["quality of the RNG; that no two nonces ever collide", "recoverability of plaintext from arbitrary emitted byte strings (runtime observation)", "crash points between file operations as executions (R5 gives the order constraints only)"]
